@@ -22,6 +22,7 @@ type Engine struct {
 	baseSorts         map[string]string
 	strictAppendFrame bool
 	unroll            int
+	knownObl          map[string]bool
 	mu                sync.Mutex
 	axiomErrs         map[string]string
 	workDir           string
@@ -42,8 +43,8 @@ type FnResult struct {
 	Ctx          *FnCtx
 }
 
-func (e *Engine) verifyFunc(p *Pkg, con *FuncContract) *FnResult {
-	res := &FnResult{Fn: p.Name + "." + con.Name, Pkg: p.Path, Contract: con}
+func (e *Engine) verifyFunc(p *Pkg, con *FuncContract) (res *FnResult) {
+	res = &FnResult{Fn: p.Name + "." + con.Name, Pkg: p.Path, Contract: con}
 	fd := p.funcs[con.Name]
 	if fd == nil {
 		res.Err = "contract drift: function not found"
@@ -212,9 +213,9 @@ func (c *FnCtx) scanClosures(fd *ast.FuncDecl) {
 }
 
 // verifyLemma checks a closed formula over spec functions.
-func (e *Engine) verifyLemma(l *LemmaRef) *FnResult {
+func (e *Engine) verifyLemma(l *LemmaRef) (res *FnResult) {
 	p := l.Pkg
-	res := &FnResult{Fn: p.Name + ".lemma:" + l.C.Label, Pkg: p.Path}
+	res = &FnResult{Fn: p.Name + ".lemma:" + l.C.Label, Pkg: p.Path}
 	c := &FnCtx{eng: e, prog: e.prog, tt: e.tt, pkg: p, fname: res.Fn,
 		declSet: map[string]bool{}, heapSort: map[string]string{}, labelN: map[string]int{},
 		abstractions: map[string]bool{}, assumedUsed: map[string]bool{}, paramTerms: map[string]string{},
@@ -312,10 +313,11 @@ func (e *Engine) smtFile(c *FnCtx, o *Obl, negate bool) string {
 	for _, a := range e.tt.tidAxioms() {
 		b.WriteString(a + "\n")
 	}
+	axioms := e.axiomAsserts(c) // may declare more symbols: evaluate before the declarations are written
 	for _, d := range c.decls {
 		b.WriteString(d + "\n")
 	}
-	for _, a := range e.axiomAsserts(c) {
+	for _, a := range axioms {
 		b.WriteString(a + "\n")
 	}
 	// axioms may have declared more symbols; emit late declarations
@@ -412,7 +414,7 @@ func runSolverCtx(parent context.Context, name, file string, timeoutS int) solve
 func writeFile(path, content string) { os.WriteFile(path, []byte(content), 0o644) }
 
 func sanitizeFile(s string) string {
-	s = strings.NewReplacer("/", "_", " ", "_", "[", "(", "]", ")", "*", "x", "\"", "", "'", "", "&", "and", "|", "or", "<", "lt", ">", "gt", "!", "not", "$", "S", "`", "", "\\", "", ";", "", "{", "", "}", "", "?", "", "#", "-").Replace(s)
+	s = strings.NewReplacer("/", "_", ":", "_", "=", "eq", " ", "_", "[", "(", "]", ")", "*", "x", "\"", "", "'", "", "&", "and", "|", "or", "<", "lt", ">", "gt", "!", "not", "$", "S", "`", "", "\\", "", ";", "", "{", "", "}", "", "?", "", "#", "-").Replace(s)
 	if len(s) > 150 {
 		s = s[:150]
 	}
